@@ -28,7 +28,6 @@
 //!       `aN` Err from first/only process | `bN` Err from second.process; r = `+N` | `-N`.
 use std::cell::{Cell, RefCell};
 use std::collections::VecDeque;
-use std::future::poll_fn;
 use std::pin::Pin;
 use std::rc::Rc;
 use std::task::{Context, Poll};
@@ -299,20 +298,24 @@ async fn run_case(payload: String, sh: Rc<Shared>) -> String {
         }
     }
     let mut top = top.expect("at least one layer");
-    let mut idle = 0usize;
-    let mut got = 0usize;
-    loop {
-        let before = sh.activity.get();
-        let r = poll_fn(|cx| Poll::Ready(top.as_mut().poll_next(cx))).await;
-        if let Poll::Ready(Some(o)) = r {
-            sh.ev(format!("Y:{}", o));
+    // The consumer awaits the outermost stream like any application would (woken only through
+    // the wakers the real code registers); the watchdog below only observes activity.
+    let shc = sh.clone();
+    let consumer = tokio::task::spawn_local(async move {
+        let mut got = 0usize;
+        while let Some(o) = top.next().await {
+            shc.ev(format!("Y:{}", o));
             let c = if cgaps.is_empty() { 0 } else { cgaps[got % cgaps.len()] };
             got += 1;
             for _ in 0..c {
-                sh.tick();
+                shc.tick();
                 yield_now().await;
             }
         }
+    });
+    let mut idle = 0usize;
+    loop {
+        let before = sh.activity.get();
         yield_now().await;
         if sh.activity.get() == before {
             idle += 1;
@@ -324,7 +327,8 @@ async fn run_case(payload: String, sh: Rc<Shared>) -> String {
         }
     }
     sh.finished.set(true);
-    drop(top);
+    consumer.abort();
+    let _ = consumer.await;
     let ev = sh.events.borrow().join(" ");
     let lost = h_common::join(&sh.lost.borrow(), ",");
     format!("{} | {} | idle", ev, lost)
